@@ -334,6 +334,14 @@ func genC07(r *rand.Rand, tier string, idx int) *World {
 		w.EDS[0].Templates["A^"] = &c
 		w.Extra["c07target"] = "A^"
 	}
+	if w.Extra["failHow"] != "storm" && chance(r, 0.25) {
+		// a broken release: the canary pods never become Ready; after the failure they are unavailable
+		// outdated pods, possibly the only outdated ones left
+		w.Extra["neverReady"] = "B"
+		if t := w.Extra["c07target"]; t != "" {
+			w.Extra["neverReady"] = t
+		}
+	}
 	c := w.EDS[0].Strategy.Canary
 	if c.Duration != "" {
 		c.Duration = pick(r, "1m", "3m", "10m", "10m")
